@@ -1,5 +1,5 @@
-INIT MCInit
-NEXT MCNext
+INIT ObjInit
+NEXT ObjNext
 CONSTANTS
   Templates = {}
   ResKinds = {}
@@ -11,9 +11,12 @@ CONSTANTS
   OtherForAll = FALSE
   EmptyMeansAll = FALSE
   StatusSucceeds = FALSE
+  StarWithCreds = FALSE
   AliasCallerSet = FALSE
   MemoDecision = FALSE
-  StarWithCreds = TRUE
+  KeepHist = TRUE
+  MaxServed = 4
+  MaxMut = 3
 INVARIANT OnlyAllowedOrigins
 INVARIANT NoOriginUntouched
 INVARIANT GrantIsEchoOrStar
@@ -22,5 +25,6 @@ INVARIANT NoWildcardWithCredentials
 INVARIANT PreflightOnlyOnSuccessWithAllow
 INVARIANT AllowRemovedOnPreflight
 INVARIANT DeniedPreflightWithdrawsGrants
-INVARIANT NoApprovalAfterRaise
 INVARIANT AllowOtherwiseKept
+INVARIANT GrantFunctionOfConfigAndRequest
+INVARIANT EmitObj
